@@ -88,6 +88,24 @@ pub fn framing_defects(b: &[u8], pt: Option<u8>, min: usize) -> Vec<&'static str
     d
 }
 
+/// The conditions C08 gives the unknown-packet parser: size, version, length field. Nothing about the payload, of
+/// which the last byte is a part.
+pub fn unknown_framing_defects(b: &[u8]) -> Vec<&'static str> {
+    let mut d = Vec::new();
+    if b.len() < 4 {
+        d.push("shorter than the minimum size");
+        return d;
+    }
+    let h = header(b).unwrap();
+    if h.version != 2 {
+        d.push("version is not 2");
+    }
+    if h.announced != b.len() {
+        d.push("length field does not match the size");
+    }
+    d
+}
+
 /// Reference compound tiling: Some(list of (start, end)) iff the input is non-empty and the chain
 /// of length fields partitions it exactly into whole packets.
 pub fn tile(b: &[u8]) -> Option<Vec<(usize, usize)>> {
